@@ -31,7 +31,8 @@ LEVEL_TEXT = ("Lean 4 theorems. Identifiers: joinS_inj (components free of the s
               "safeNsName_not_injective (decided witnesses: S-C07-a, S-C07-b) with ing_upstream_inj_partial. Well-formedness: closed_renderDir, "
               "closed_renderBlock, closed_append, closed_ws, closed_wellFormed — every configuration built from directives and blocks whose words "
               "are token-safe is lexically well formed (tokens closed, braces balanced at every depth, every directive terminated), for all words "
-              "and all sizes; C06's theorems supply token-safety of what the validators admit.")
+              "and all sizes; C06's theorems supply token-safety of what the validators admit."
+              ' Source tie: the upstream / variable namers and file-name functions are translated from /repo on every run and proved equal to the naming model the injectivity theorems are stated over (Props/TieNames.lean); the template analysis of the two TransportServer templates is also evaluated by the kernel (Props/C07Tmpl.lean); the hole-site table (lexical context of every interpolation site) is regenerated and pinned.')
 LEVEL_NOTE = "Assurance = weaker of (theorems on the naming twins and on the tokenizer model, naming correspondence, the whole-output oracle on generated resource sets)."
 TECHNIQUE = "Lean 4 proof (separator-join injectivity; verified configuration builder: closed pieces compose into well-formed files) + model/implementation correspondence on identifier constructors + whole-output duplicate/arity/lexical oracle on generated resource sets"
 
